@@ -4,9 +4,39 @@ from . import rtprop
 THEOREMS = ['FlexVerif.bufferOp_start', 'FlexVerif.match_conserves', 'FlexVerif.less_conserves']
 
 
+STACK_THEOREMS = ['FlexVerif.C11Stack.' + t for t in ('ensure_spec', 'push_refines', 'pop_refines', 'switch_refines', 'current_refines',
+                                                      'stack_refines', 'current_after', 'deleted_after')]
+
+
+def regen_bufstack():
+    """translate yyensure_buffer_stack / yypush_buffer_state / yypop_buffer_state / yy_switch_to_buffer / yy_current_buffer() from a
+    scanner flex generates now into lean/FlexVerif/Gen/BufStack.lean"""
+    import os, fcntl
+    from . import flexrun, gen_bufstack, common
+    flex, src = flexrun.build_flex()
+    try:
+        body, info = gen_bufstack.generate(flex, flexrun.scratch_root())
+    except gen_bufstack.TranslateError as e:
+        return None, str(e)
+    path = os.path.join(common.LEAN_DIR, 'FlexVerif', 'Gen', 'BufStack.lean')
+    lock = open(os.path.join(common.LEAN_DIR, '.build.lock'), 'w')
+    fcntl.flock(lock, fcntl.LOCK_EX)
+    try:
+        old = open(path).read() if os.path.exists(path) else ''
+        if old != body:
+            open(path, 'w').write(body)
+    finally:
+        fcntl.flock(lock, fcntl.LOCK_UN)
+        lock.close()
+    return info, None
+
+
 def run(ctx):
+    info, err = regen_bufstack()
+    if err:
+        ctx.violation('translator of the buffer stack functions gave up: ' + err, {'error': err}, no_input=True)
     q1, q2, q3 = {'quick': (64, 48, 32), 'thorough': (600, 400, 200)}[ctx.tier]
     plan = [('buffers', q1, 8), ('include', q2, 6), ('wrapbol', q2, 6)]
-    return rtprop.run(ctx, THEOREMS, plan, 'exploration',
-                      'multiple input buffers: histories of create/scan_string/scan_bytes/scan_buffer (with and without the two NULs)/switch/push/pop/flush/delete between yylex calls and from inside actions (nested includes ended by <<EOF>> actions that pop and continue), buffer sizes 1..16384, per-buffer line numbers in reentrant scanners; the abstract scanner keeps one independent unread-input list per buffer' + '. Kernel-checked theorems about the abstract scanner (listed under obligations) + differential '
+    return rtprop.run(ctx, THEOREMS + STACK_THEOREMS, plan, 'proof',
+                      'multiple input buffers: histories of create/scan_string/scan_bytes/scan_buffer (with and without the two NULs)/switch/push/pop/flush/delete between yylex calls and from inside actions (nested includes ended by <<EOF>> actions that pop and continue), buffer sizes 1..16384, per-buffer line numbers in reentrant scanners; the abstract scanner keeps one independent unread-input list per buffer; the buffer *stack* code itself (yyensure_buffer_stack, yypush_buffer_state, yypop_buffer_state, yy_switch_to_buffer, yy_current_buffer()) is translated from a scanner flex generates in this run (Gen/BufStack.lean) and proved to implement a stack of buffer handles for every sequence of calls, with exactly the popped buffers deleted and no access to yy_buffer_stack[] out of bounds - growth by 8 slots and zeroing of fresh slots included (C11Stack.stack_refines, current_after, deleted_after); what those functions do to the *contents* of buffers is outside that translation' + '. Kernel-checked theorems about the abstract scanner (listed under obligations) + differential '
                       'correspondence of the real generated scanner (ASan/UBSan build) with that model on generated cases.')
